@@ -52,8 +52,10 @@ Fixpoint xs_objids_range (x : xrefstm) (start : Z) (n : nat) (i : Z) (index : Z)
   match n with
   | O => []
   | S m =>
-      let '(f1, _, _) := xs_entry x (index + i) in
-      (if (f1 =? 1) || (f1 =? 2) then [start + i] else []) ++ xs_objids_range x start m (i + 1) index
+      if Z.of_nat (length (xdata x)) <=? entlen x * (index + i) then []      (* the data holds no further entries: break *)
+      else
+        let '(f1, _, _) := xs_entry x (index + i) in
+        (if (f1 =? 1) || (f1 =? 2) then [start + i] else []) ++ xs_objids_range x start m (i + 1) index
   end.
 Fixpoint xs_objids_go (x : xrefstm) (ranges : list (Z * Z)) (index : Z) : list Z :=
   match ranges with
